@@ -1,4 +1,6 @@
-(* LifecycleProofs.v — proofs about the life-cycle machine of Lifecycle.v (property C06). *)
+(* LifecycleProofs.v — proofs about the life-cycle machine of Lifecycle.v (property C06).
+   The positive results are about the repaired machine (rem_fix = sweep_fix = true); the
+   pinned variants are refuted by computation at the end. *)
 From Coq Require Import List Arith Bool PeanoNat Lia.
 From CelloV Require Import Generated Lifecycle.
 Import ListNotations.
@@ -6,3 +8,446 @@ Import ListNotations.
 (* the fixed shapes of the C text that Lifecycle.v re-states (tools/genx_life.py) *)
 Lemma source_shape_ok : gc_life_shape = true.
 Proof. reflexivity. Qed.
+
+(* ------------------------------------------------------------------ small facts *)
+Definition regids (s : st) : list id := map fst (reg s).
+Definition somes (l : list (option id)) : list id :=
+  flat_map (fun x => match x with Some y => [y] | None => [] end) l.
+Definition pids (s : st) : list id := somes (pend s).
+Definition measure (s : st) : nat := nitems s + live_pend s.
+Definition done (s : st) (x : id) : Prop := fin_count s x = 1 /\ free_count s x = 1.
+
+Lemma lev_eqb_refl e : lev_eqb e e = true.
+Proof. destruct e; simpl; apply Nat.eqb_refl. Qed.
+
+Lemma count_cons e a l : count e (a :: l) = (if lev_eqb e a then 1 else 0) + count e l.
+Proof. unfold count. simpl. destruct (lev_eqb e a); reflexivity. Qed.
+
+Lemma fin_add_fin s o x : fin_count (add_log (LFin o) s) x = (if x =? o then 1 else 0) + fin_count s x.
+Proof. unfold fin_count. simpl log. rewrite count_cons. reflexivity. Qed.
+Lemma fin_add_free s o x : fin_count (add_log (LFree o) s) x = fin_count s x.
+Proof. unfold fin_count. simpl log. rewrite count_cons. reflexivity. Qed.
+Lemma free_add_fin s o x : free_count (add_log (LFin o) s) x = free_count s x.
+Proof. unfold free_count. simpl log. rewrite count_cons. reflexivity. Qed.
+Lemma free_add_free s o x : free_count (add_log (LFree o) s) x = (if x =? o then 1 else 0) + free_count s x.
+Proof. unfold free_count. simpl log. rewrite count_cons. reflexivity. Qed.
+
+Lemma somes_in l x : In x (somes l) <-> In (Some x) l.
+Proof.
+  unfold somes. rewrite in_flat_map. split.
+  - intros [[y|] [H1 H2]]; simpl in H2; [destruct H2 as [->|[]]; exact H1 | destruct H2].
+  - intros H. exists (Some x). split; [exact H | simpl; auto].
+Qed.
+
+Lemma live_pend_somes s : live_pend s = length (pids s).
+Proof.
+  unfold live_pend, pids, somes. induction (pend s) as [|[y|] l IH]; simpl; auto.
+Qed.
+
+Lemma somes_null o l : somes (null_pend o l) = filter (fun y => negb (y =? o)) (somes l).
+Proof.
+  unfold null_pend, somes. induction l as [|[y|] l IH]; simpl; auto.
+  destruct (y =? o) eqn:E; simpl; rewrite IH; reflexivity.
+Qed.
+
+Lemma filter_length_le {A} (f : A -> bool) l : length (filter f l) <= length l.
+Proof. induction l; simpl; [lia | destruct (f a); simpl; lia]. Qed.
+
+Lemma filter_length_lt {A} (f : A -> bool) l x : In x l -> f x = false -> length (filter f l) < length l.
+Proof.
+  induction l; simpl; [tauto|]. intros [->|H] Hf.
+  - rewrite Hf. pose proof (filter_length_le f l). lia.
+  - specialize (IHl H Hf). destruct (f a); simpl; lia.
+Qed.
+
+Lemma NoDup_filter {A} (f : A -> bool) l : NoDup l -> NoDup (filter f l).
+Proof.
+  induction 1; simpl; [constructor|]. destruct (f x); auto. constructor; auto.
+  rewrite filter_In. tauto.
+Qed.
+
+Lemma regids_rem o r : map fst (rem_reg o r) = filter (fun y => negb (y =? o)) (map fst r).
+Proof.
+  unfold rem_reg. induction r as [|[a b] r IH]; simpl; auto.
+  destruct (a =? o); simpl; rewrite IH; reflexivity.
+Qed.
+
+Lemma in_reg_spec s o : in_reg s o = true <-> In o (regids s).
+Proof.
+  unfold in_reg, regids. rewrite existsb_exists, in_map_iff. split.
+  - intros [e [H1 H2]]. apply Nat.eqb_eq in H2. exists e; auto.
+  - intros [e [H1 H2]]. exists e. split; auto. apply Nat.eqb_eq; auto.
+Qed.
+
+Lemma in_pend_spec s o : in_pend s o = true <-> In o (pids s).
+Proof.
+  unfold in_pend, pids. rewrite somes_in, existsb_exists. split.
+  - intros [[y|] [H1 H2]]; simpl in H2; [|discriminate]. apply Nat.eqb_eq in H2. subst. exact H1.
+  - intros H. exists (Some o). split; auto. simpl. apply Nat.eqb_refl.
+Qed.
+
+(* ------------------------------------------------------------------ invariant, extension *)
+(* A = objects whose destructor is running (Fin logged, memory not yet released) *)
+Record GInv (A : list id) (s : st) : Prop := {
+  g_reg_nodup : NoDup (regids s);
+  g_pend_nodup : NoDup (pids s);
+  g_disj : forall x, In x (regids s) -> ~ In x (pids s);
+  g_fresh : forall x, In x (regids s) \/ In x (pids s) -> fin_count s x = 0;
+  g_prog : forall x, In x A -> fin_count s x = 1 /\ free_count s x = 0;
+  g_rest : forall x, ~ In x A -> free_count s x = fin_count s x /\ fin_count s x <= 1
+}.
+
+Record Ext (s s' : st) : Prop := {
+  e_running : running s' = running s;
+  e_info : info s' = info s;
+  e_ids : ids s' = ids s;
+  e_torn : torn s' = torn s;
+  e_bad : bad s' = bad s;
+  e_oof : oof s' = oof s;
+  e_fin : forall x, fin_count s x <= fin_count s' x;
+  e_free : forall x, free_count s x <= free_count s' x;
+  e_reg : incl (reg s') (reg s);
+  e_pend : Forall2 (fun a b => a = b \/ a = None) (pend s') (pend s);
+  e_regdone : forall x, In x (regids s) -> ~ In x (regids s') -> done s' x;
+  e_penddone : forall x, In x (pids s) -> ~ In x (pids s') -> done s' x;
+  e_done : forall x, done s x -> done s' x;
+  e_meas : measure s' <= measure s
+}.
+
+Lemma Forall2_refl_or {A} (l : list (option A)) : Forall2 (fun a b => a = b \/ a = None) l l.
+Proof. induction l; constructor; auto. Qed.
+
+Lemma Ext_refl s : Ext s s.
+Proof.
+  constructor; auto; try tauto.
+  - apply incl_refl.
+  - apply Forall2_refl_or.
+Qed.
+
+Lemma F2_trans {A} (l1 l2 l3 : list (option A)) :
+  Forall2 (fun a b => a = b \/ a = None) l1 l2 -> Forall2 (fun a b => a = b \/ a = None) l2 l3 ->
+  Forall2 (fun a b => a = b \/ a = None) l1 l3.
+Proof.
+  intros H. revert l3. induction H; intros l3 H3; inversion H3; subst; constructor.
+  - destruct H as [-> | ->]; auto.
+  - apply IHForall2; assumption.
+Qed.
+
+Lemma F2_somes_incl (l1 l2 : list (option id)) :
+  Forall2 (fun a b => a = b \/ a = None) l1 l2 -> incl (somes l1) (somes l2).
+Proof.
+  induction 1; simpl; [apply incl_refl|].
+  destruct H as [-> | ->]; simpl.
+  - apply incl_app; [apply incl_appl, incl_refl | apply incl_appr; assumption].
+  - apply incl_appr; assumption.
+Qed.
+
+Lemma Ext_trans s1 s2 s3 : Ext s1 s2 -> Ext s2 s3 -> Ext s1 s3.
+Proof.
+  intros H1 H2. constructor.
+  - rewrite (e_running _ _ H2). apply H1.
+  - rewrite (e_info _ _ H2). apply H1.
+  - rewrite (e_ids _ _ H2). apply H1.
+  - rewrite (e_torn _ _ H2). apply H1.
+  - rewrite (e_bad _ _ H2). apply H1.
+  - rewrite (e_oof _ _ H2). apply H1.
+  - intros x. pose proof (e_fin _ _ H1 x). pose proof (e_fin _ _ H2 x). lia.
+  - intros x. pose proof (e_free _ _ H1 x). pose proof (e_free _ _ H2 x). lia.
+  - eapply incl_tran; [apply H2 | apply H1].
+  - eapply F2_trans; [apply H2 | apply H1].
+  - intros x Hin Hnot.
+    destruct (in_dec Nat.eq_dec x (regids s2)) as [Hi|Hn].
+    + apply (e_regdone _ _ H2); assumption.
+    + apply (e_done _ _ H2). apply (e_regdone _ _ H1); assumption.
+  - intros x Hin Hnot.
+    destruct (in_dec Nat.eq_dec x (pids s2)) as [Hi|Hn].
+    + apply (e_penddone _ _ H2); assumption.
+    + apply (e_done _ _ H2). apply (e_penddone _ _ H1); assumption.
+  - intros x Hd. apply (e_done _ _ H2), (e_done _ _ H1), Hd.
+  - pose proof (e_meas _ _ H1). pose proof (e_meas _ _ H2). lia.
+Qed.
+
+Lemma Ext_regids s s' : Ext s s' -> incl (regids s') (regids s).
+Proof. intros H x Hx. unfold regids in *. apply in_map_iff in Hx. destruct Hx as [e [<- He]]. apply in_map. apply (e_reg _ _ H). exact He. Qed.
+
+Lemma Ext_pids s s' : Ext s s' -> incl (pids s') (pids s).
+Proof. intros H. apply F2_somes_incl. apply H. Qed.
+
+(* ------------------------------------------------------------------ primitive steps *)
+Ltac ext_triv := first [ reflexivity | apply incl_refl | apply Forall2_refl_or
+                       | (let H1 := fresh in let H2 := fresh in intros ? H1 H2; exfalso; apply H2; exact H1)
+                       | apply Nat.le_refl | (intros ? ?; assumption) ].
+
+Lemma ginv_done_mono A s s' x :
+  GInv A s' -> ~ In x A -> fin_count s x <= fin_count s' x -> free_count s x <= free_count s' x ->
+  done s x -> done s' x.
+Proof.
+  intros G Hn H1 H2 [Hd1 Hd2]. destruct (g_rest _ _ G x Hn) as [Ha Hb]. unfold done. lia.
+Qed.
+
+(* logging the destructor call of o *)
+Lemma add_fin_ok A s o :
+  GInv A s -> ~ In o (regids s) -> ~ In o (pids s) -> fin_count s o = 0 ->
+  GInv (o :: A) (add_log (LFin o) s) /\ Ext s (add_log (LFin o) s).
+Proof.
+  intros G Hr Hp Hf.
+  assert (HoA : ~ In o A). { intros HA. destruct (g_prog _ _ G o HA). lia. }
+  assert (Hfree : free_count s o = 0). { destruct (g_rest _ _ G o HoA). lia. }
+  split.
+  - constructor; [apply G | apply G | apply G | | |].
+    + intros x Hx. rewrite fin_add_fin. destruct (Nat.eqb_spec x o) as [->|Hne].
+      * destruct Hx; contradiction.
+      * simpl. apply (g_fresh _ _ G). exact Hx.
+    + intros x [<-|Hx].
+      * rewrite fin_add_fin, free_add_fin, Nat.eqb_refl. lia.
+      * rewrite fin_add_fin, free_add_fin. destruct (Nat.eqb_spec x o) as [->|Hne]; [contradiction|].
+        simpl. apply (g_prog _ _ G). exact Hx.
+    + intros x Hx. rewrite fin_add_fin, free_add_fin.
+      destruct (Nat.eqb_spec x o) as [->|Hne]; [exfalso; apply Hx; left; reflexivity|].
+      simpl. apply (g_rest _ _ G). intros HA. apply Hx. right. exact HA.
+  - constructor; try ext_triv; try (intros x; rewrite ?fin_add_fin, ?free_add_fin; lia).
+    intros x [Hd1 Hd2]. unfold done. rewrite fin_add_fin, free_add_fin.
+      destruct (Nat.eqb_spec x o) as [->|Hne]; [lia | simpl; auto].
+Qed.
+
+(* logging the release of o's memory *)
+Lemma add_free_ok A s o :
+  GInv (o :: A) s -> ~ In o A -> ~ In o (regids s) -> ~ In o (pids s) ->
+  GInv A (add_log (LFree o) s) /\ Ext s (add_log (LFree o) s) /\ done (add_log (LFree o) s) o.
+Proof.
+  intros G HoA Hr Hp.
+  destruct (g_prog _ _ G o (or_introl eq_refl)) as [Hf1 Hf0].
+  split; [|split].
+  - constructor.
+    + apply G.
+    + apply G.
+    + apply G.
+    + intros x Hx. rewrite fin_add_free. apply (g_fresh _ _ G). exact Hx.
+    + intros x Hx. rewrite fin_add_free, free_add_free.
+      destruct (Nat.eqb_spec x o) as [->|Hne]; [contradiction|]. simpl.
+      apply (g_prog _ _ G). right. exact Hx.
+    + intros x Hx. rewrite fin_add_free, free_add_free.
+      destruct (Nat.eqb_spec x o) as [->|Hne]; [lia|]. simpl.
+      apply (g_rest _ _ G). intros [<-|HA]; [congruence | contradiction].
+  - constructor; try ext_triv; try (intros x; rewrite ?fin_add_free, ?free_add_free; lia).
+    intros x [Hd1 Hd2]. unfold done. rewrite fin_add_free, free_add_free.
+      destruct (Nat.eqb_spec x o) as [->|Hne]; [lia | simpl; auto].
+  - unfold done. rewrite fin_add_free, free_add_free, Nat.eqb_refl. lia.
+Qed.
+
+(* fields the invariant does not look at *)
+Lemma set_mitems_ok A s m : GInv A s -> GInv A (set_mitems m s) /\ Ext s (set_mitems m s).
+Proof.
+  intros G. split; [constructor; apply G|].
+  constructor; try ext_triv; try (intros x; apply Nat.le_refl).
+Qed.
+
+Lemma set_owned_ok A s f : GInv A s -> GInv A (set_owned f s) /\ Ext s (set_owned f s).
+Proof.
+  intros G. split; [constructor; apply G|].
+  constructor; try ext_triv; try (intros x; apply Nat.le_refl).
+Qed.
+
+Lemma F2_null o l : Forall2 (fun a b => a = b \/ a = None) (null_pend o l) l.
+Proof. unfold null_pend. induction l; simpl; constructor; auto. destruct (opt_is o a); auto. Qed.
+
+(* clearing o's pending entry: o is now neither registered nor pending *)
+Lemma null_pend_ok A s o :
+  GInv A s -> In o (pids s) ->
+  let s' := set_pend (null_pend o (pend s)) s in
+  GInv A s' /\ ~ In o (regids s') /\ ~ In o (pids s') /\ fin_count s' o = 0 /\ measure s' < measure s /\
+  running s' = running s /\ info s' = info s /\ ids s' = ids s /\ torn s' = torn s /\ bad s' = bad s /\ oof s' = oof s /\
+  log s' = log s /\ reg s' = reg s /\ Forall2 (fun a b => a = b \/ a = None) (pend s') (pend s) /\
+  (forall x, In x (pids s) -> x <> o -> In x (pids s')).
+Proof.
+  intros G Hin s'.
+  assert (Hp : pids s' = filter (fun y => negb (y =? o)) (pids s)).
+  { unfold pids, s'. simpl. apply somes_null. }
+  assert (Hno : ~ In o (pids s')).
+  { rewrite Hp, filter_In. intros [_ H]. rewrite Nat.eqb_refl in H. discriminate. }
+  split; [|repeat split; auto].
+  - constructor.
+    + apply G.
+    + rewrite Hp. apply NoDup_filter, G.
+    + intros x Hx. rewrite Hp, filter_In. intros [H _]. revert H. apply (g_disj _ _ G). exact Hx.
+    + intros x [Hx|Hx]; [apply (g_fresh _ _ G); left; exact Hx|].
+      rewrite Hp, filter_In in Hx. apply (g_fresh _ _ G). right. tauto.
+    + apply G.
+    + apply G.
+  - intros Hr. apply (g_disj _ _ G o Hr Hin).
+  - apply (g_fresh _ _ G). right. exact Hin.
+  - unfold measure, nitems. rewrite !live_pend_somes, Hp. change (reg s') with (reg s).
+    assert (length (filter (fun y => negb (y =? o)) (pids s)) < length (pids s)).
+    { apply filter_length_lt with (x := o); auto. rewrite Nat.eqb_refl. reflexivity. }
+    lia.
+  - apply F2_null.
+  - intros x Hx Hne. rewrite Hp, filter_In. split; auto.
+    destruct (Nat.eqb_spec x o); [contradiction | reflexivity].
+Qed.
+
+Lemma incl_filter {A} (f : A -> bool) l : incl (filter f l) l.
+Proof. intros x Hx. apply filter_In in Hx. tauto. Qed.
+
+(* removing o's registry entry *)
+Lemma rem_reg_ok A s o :
+  GInv A s -> In o (regids s) ->
+  let s' := set_reg (rem_reg o (reg s)) s in
+  GInv A s' /\ ~ In o (regids s') /\ ~ In o (pids s') /\ fin_count s' o = 0 /\ measure s' < measure s /\
+  running s' = running s /\ info s' = info s /\ ids s' = ids s /\ torn s' = torn s /\ bad s' = bad s /\ oof s' = oof s /\
+  log s' = log s /\ pend s' = pend s /\ incl (reg s') (reg s) /\
+  (forall x, In x (regids s) -> x <> o -> In x (regids s')).
+Proof.
+  intros G Hin s'.
+  assert (Hr : regids s' = filter (fun y => negb (y =? o)) (regids s)).
+  { unfold regids, s'. simpl. apply regids_rem. }
+  assert (Hno : ~ In o (regids s')).
+  { rewrite Hr, filter_In. intros [_ H]. rewrite Nat.eqb_refl in H. discriminate. }
+  split; [|repeat split; auto].
+  - constructor.
+    + rewrite Hr. apply NoDup_filter, G.
+    + apply G.
+    + intros x Hx. rewrite Hr, filter_In in Hx. apply (g_disj _ _ G). tauto.
+    + intros x [Hx|Hx]; [|apply (g_fresh _ _ G); right; exact Hx].
+      rewrite Hr, filter_In in Hx. apply (g_fresh _ _ G). left. tauto.
+    + apply G.
+    + apply G.
+  - apply (g_disj _ _ G o Hin).
+  - apply (g_fresh _ _ G). left. exact Hin.
+  - unfold measure, nitems. simpl reg. fold (regids s).
+    assert (Hl : length (rem_reg o (reg s)) = length (regids s')).
+    { unfold regids, s'. simpl. rewrite map_length. reflexivity. }
+    rewrite Hl, Hr.
+    assert (length (filter (fun y => negb (y =? o)) (regids s)) < length (regids s)).
+    { apply filter_length_lt with (x := o); auto. rewrite Nat.eqb_refl. reflexivity. }
+    unfold regids in H at 2. rewrite map_length in H.
+    assert (live_pend s' = live_pend s) by reflexivity. lia.
+  - unfold s'. simpl. unfold rem_reg. apply incl_filter.
+  - intros x Hx Hne. rewrite Hr, filter_In. split; auto.
+    destruct (Nat.eqb_spec x o); [contradiction | reflexivity].
+Qed.
+
+(* ------------------------------------------------------------------ finalisation *)
+(* what a finaliser `fin` achieves on states of measure below n *)
+Definition FinOK (fin : st -> id -> st) (n : nat) : Prop :=
+  forall A s o, GInv A s -> ~ In o (regids s) -> ~ In o (pids s) -> fin_count s o = 0 -> measure s < n ->
+    GInv A (fin s o) /\ Ext s (fin s o) /\ done (fin s o) o.
+
+Lemma Ext_of_fields s s' :
+  running s' = running s -> info s' = info s -> ids s' = ids s -> torn s' = torn s -> bad s' = bad s -> oof s' = oof s ->
+  log s' = log s -> incl (reg s') (reg s) -> Forall2 (fun a b => a = b \/ a = None) (pend s') (pend s) ->
+  (forall x, In x (regids s) -> ~ In x (regids s') -> done s' x) ->
+  (forall x, In x (pids s) -> ~ In x (pids s') -> done s' x) ->
+  measure s' <= measure s -> Ext s s'.
+Proof.
+  intros. assert (Hf : forall x, fin_count s' x = fin_count s x) by (intros; unfold fin_count; congruence).
+  assert (Hr : forall x, free_count s' x = free_count s x) by (intros; unfold free_count; congruence).
+  constructor; auto.
+  - intros x. rewrite Hf. lia.
+  - intros x. rewrite Hr. lia.
+  - intros x [H11 H12]. unfold done. rewrite Hf, Hr. auto.
+Qed.
+
+(* s1 = s with the entry of p taken out of the registry or out of the pending list; once p is
+   done, everything that followed extends s itself *)
+Lemma Ext_from_removed s s1 s3 p :
+  running s1 = running s -> info s1 = info s -> ids s1 = ids s -> torn s1 = torn s -> bad s1 = bad s -> oof s1 = oof s ->
+  log s1 = log s -> incl (reg s1) (reg s) -> Forall2 (fun a b => a = b \/ a = None) (pend s1) (pend s) ->
+  (forall x, In x (regids s) -> x <> p -> In x (regids s1)) ->
+  (forall x, In x (pids s) -> x <> p -> In x (pids s1)) ->
+  measure s1 <= measure s ->
+  Ext s1 s3 -> done s3 p -> Ext s s3.
+Proof.
+  intros Hr Hi Hd Ht Hb Ho Hl Hreg Hpend Kr Kp Hm E Dn.
+  assert (Hf : forall x, fin_count s1 x = fin_count s x) by (intros; unfold fin_count; congruence).
+  assert (Hfr : forall x, free_count s1 x = free_count s x) by (intros; unfold free_count; congruence).
+  constructor.
+  - rewrite (e_running _ _ E); exact Hr.
+  - rewrite (e_info _ _ E); exact Hi.
+  - rewrite (e_ids _ _ E); exact Hd.
+  - rewrite (e_torn _ _ E); exact Ht.
+  - rewrite (e_bad _ _ E); exact Hb.
+  - rewrite (e_oof _ _ E); exact Ho.
+  - intros x. rewrite <- Hf. apply E.
+  - intros x. rewrite <- Hfr. apply E.
+  - eapply incl_tran; [apply E | exact Hreg].
+  - eapply F2_trans; [apply E | exact Hpend].
+  - intros x Hx Hnx. destruct (Nat.eq_dec x p) as [->|Hne]; [exact Dn|].
+    apply (e_regdone _ _ E); auto.
+  - intros x Hx Hnx. destruct (Nat.eq_dec x p) as [->|Hne]; [exact Dn|].
+    apply (e_penddone _ _ E); auto.
+  - intros x [H1 H2]. apply (e_done _ _ E). unfold done. rewrite Hf, Hfr. auto.
+  - pose proof (e_meas _ _ E). lia.
+Qed.
+
+(* GC_Rem (repaired) with a good finaliser *)
+Lemma gc_rem_ok fin n :
+  FinOK fin n -> forall A s p, GInv A s -> measure s <= n ->
+    GInv A (gc_rem true fin s p) /\ Ext s (gc_rem true fin s p) /\
+    (running s = true -> In p (regids s) \/ In p (pids s) -> done (gc_rem true fin s p) p).
+Proof.
+  intros HF A s p G Hm. unfold gc_rem.
+  destruct (running s) eqn:Hrun; simpl negb; cbv iota.
+  2:{ split; [exact G|]. split; [apply Ext_refl|]. discriminate. }
+  destruct (in_pend s p) eqn:Hp.
+  - apply in_pend_spec in Hp.
+    destruct (null_pend_ok A s p G Hp) as (G1 & N1 & N2 & F0 & M1 & R1 & I1 & D1 & T1 & B1 & O1 & L1 & Rg1 & P1 & K1).
+    set (s1 := set_pend (null_pend p (pend s)) s) in *.
+    destruct (HF A s1 p G1 N1 N2 F0 ltac:(lia)) as (G2 & E2 & Dn).
+    set (s2 := fin s1 p) in *.
+    destruct (set_mitems_ok A s2 (mitems_rule (nitems s2)) G2) as (G3 & E3).
+    split; [exact G3|]. split.
+    + assert (Hreg : incl (reg s1) (reg s)) by (rewrite Rg1; apply incl_refl).
+      assert (Kr : forall x, In x (regids s) -> x <> p -> In x (regids s1)).
+      { intros x Hx _. unfold regids. rewrite Rg1. exact Hx. }
+      assert (Hm' : measure s1 <= measure s) by lia.
+      assert (E23 : Ext s1 (set_mitems (mitems_rule (nitems s2)) s2)) by (eapply Ext_trans; [exact E2 | exact E3]).
+      exact (Ext_from_removed s s1 _ p R1 I1 D1 T1 B1 O1 L1 Hreg P1 Kr K1 Hm' E23 (e_done _ _ E3 _ Dn)).
+    + intros _ _. apply (e_done _ _ E3). exact Dn.
+  - destruct (in_reg s p) eqn:Hr.
+    + apply in_reg_spec in Hr.
+      destruct (rem_reg_ok A s p G Hr) as (G1 & N1 & N2 & F0 & M1 & R1 & I1 & D1 & T1 & B1 & O1 & L1 & Pd1 & Rg1 & K1).
+      set (s1 := set_reg (rem_reg p (reg s)) s) in *.
+      destruct (HF A s1 p G1 N1 N2 F0 ltac:(lia)) as (G2 & E2 & Dn).
+      set (s2 := fin s1 p) in *.
+      destruct (set_mitems_ok A s2 (mitems_rule (nitems s2)) G2) as (G3 & E3).
+      split; [exact G3|]. split.
+      * assert (Hpend : Forall2 (fun a b => a = b \/ a = None) (pend s1) (pend s)) by (rewrite Pd1; apply Forall2_refl_or).
+        assert (Kp : forall x, In x (pids s) -> x <> p -> In x (pids s1)).
+        { intros x Hx _. unfold pids. rewrite Pd1. exact Hx. }
+        assert (Hm' : measure s1 <= measure s) by lia.
+        assert (E23 : Ext s1 (set_mitems (mitems_rule (nitems s2)) s2)) by (eapply Ext_trans; [exact E2 | exact E3]).
+        exact (Ext_from_removed s s1 _ p R1 I1 D1 T1 B1 O1 L1 Rg1 Hpend K1 Kp Hm' E23 (e_done _ _ E3 _ Dn)).
+      * intros _ _. apply (e_done _ _ E3). exact Dn.
+    + destruct (set_mitems_ok A s (mitems_rule (nitems s)) G) as (G3 & E3).
+      split; [exact G3|]. split; [exact E3|].
+      intros _ [H|H].
+      * apply in_reg_spec in H. congruence.
+      * apply in_pend_spec in H. congruence.
+Qed.
+
+(* dealloc(destruct(o)) with enough fuel *)
+Lemma finalise_ok f : FinOK (finalise true f) f.
+Proof.
+  induction f as [|f IH]; intros A s o G Hr Hp Hf Hm; [lia|].
+  assert (HoA : ~ In o A). { intros HA. destruct (g_prog _ _ G o HA). lia. }
+  cbn [finalise].
+  destruct (add_fin_ok A s o G Hr Hp Hf) as (G1 & E1).
+  set (s1 := add_log (LFin o) s) in *.
+  assert (Hm1 : measure s1 <= f) by (pose proof (e_meas _ _ E1); lia).
+  assert (Hr1 : ~ In o (regids s1)) by exact Hr.
+  assert (Hp1 : ~ In o (pids s1)) by exact Hp.
+  destruct (owned s1 o) as [p|].
+  - destruct (gc_rem_ok _ _ IH (o :: A) s1 p G1 Hm1) as (G2 & E2 & _).
+    set (s2 := gc_rem true (finalise true f) s1 p) in *.
+    destruct (set_owned_ok (o :: A) s2 (upd_owned (owned s2) o None) G2) as (G3 & E3).
+    set (s3 := set_owned (upd_owned (owned s2) o None) s2) in *.
+    assert (E13 : Ext s1 s3) by (eapply Ext_trans; eassumption).
+    assert (Hr3 : ~ In o (regids s3)) by (intros H; apply Hr1; apply (Ext_regids _ _ E13); exact H).
+    assert (Hp3 : ~ In o (pids s3)) by (intros H; apply Hp1; apply (Ext_pids _ _ E13); exact H).
+    destruct (add_free_ok A s3 o G3 HoA Hr3 Hp3) as (G4 & E4 & Dn).
+    split; [exact G4|]. split; [|exact Dn].
+    eapply Ext_trans; [exact E1|]. eapply Ext_trans; [exact E13 | exact E4].
+  - destruct (add_free_ok A s1 o G1 HoA Hr1 Hp1) as (G4 & E4 & Dn).
+    split; [exact G4|]. split; [|exact Dn].
+    eapply Ext_trans; [exact E1 | exact E4].
+Qed.
